@@ -67,7 +67,8 @@ MANIFEST = {
             'forwarding are compared with the expected outcome per task.'
             "  Second session: contract on the real complete_url: the caller's context (strings or ru.Url objects, as Pilot.stage_in uses) is unchanged by a call and the same question gets the same answer twice."
             "  Third session: pilot level - Pilot.stage_in / Pilot.stage_out (default and explicit directives, dict and list forms) of 1-3 pilots of one manager through the manager's real stager; the data must be at the place the call returns, with the content of THAT pilot."
-            '  Several tasks may copy the same reference file to the same place in the pilot sandbox; a later failure of one of them leaves what the others staged.',
+            '  Several tasks may copy the same reference file to the same place in the pilot sandbox; a later failure of one of them leaves what the others staged.'
+            '  Directory life cycles: 2-4 generations of tasks collect their outputs (COPY) in one directory of the pilot / session / resource sandbox through one agent output stager; between generations the directory is moved away as a whole (MOVE directive or renamed by a task): every directive succeeds, every file is where the directives put it.',
     'note': 'only the local staging backend exists offline (no SAGA); the '
             'driver replaces the proxy bridge and the executor; sampled, not '
             'enumerated.'}
@@ -1509,6 +1510,147 @@ def _pilot_staging_history(rng, res, root, make_pmgr, make_pilot,
                 res.count('pilot_default_stage_outs')
 
 
+# ------------------------------------------------------------------------------
+#
+# directory life cycles in one stager: an iterative workflow collects the
+# outputs of one generation in a directory of the pilot sandbox, moves that
+# directory away as a whole, and collects the next generation under the same
+# name.  Every directive is legal on its own; all of them run through the same
+# agent output stager, one after the other.
+#
+def collect_and_move_history(rng, res, workdir, idx):
+
+    root = os.path.join(os.path.realpath(workdir), 'tree')
+    orc  = Oracle(root)
+    keep = set()
+    for d in ('client', 'ext', 'workdir', 'pilot'):
+        path = orc.bases[d]
+        os.makedirs(path, exist_ok=True)
+        while path != root:
+            keep.add(path)
+            path = os.path.dirname(path)
+    clean_tree(root, keep)
+    pipe = Pipeline(root, orc.bases, seed=0)
+    try:
+        _collect_and_move(rng, res, root, orc, pipe, idx)
+    finally:
+        pipe.close()
+        clean_tree(root, keep)
+
+
+def _collect_and_move(rng, res, root, orc, pipe, idx):
+
+    psbox  = orc.bases['pilot']
+    place  = rng.choice(['pilot', 'session', 'resource'])
+    pbase  = {'pilot'   : psbox,
+              'session' : os.path.dirname(psbox.rstrip('/')),
+              'resource': os.path.dirname(os.path.dirname(psbox.rstrip('/')))
+             }[place]
+    cname  = rng.choice(['collect', 'out dir', 'res/cur'])
+    gens   = rng.randint(2, 4)
+    per    = rng.randint(1, 3)
+    mover  = rng.choice([rpc.MOVE, rpc.MOVE, 'rename-by-task'])
+    plan   = list()             # (uid, directives, files expected afterwards)
+    expect = dict()             # path -> content
+    n      = 0
+
+    def sd(action, src, tgt):
+        return {'uid': 'sd.%04d' % len(plan), 'source': src, 'target': tgt,
+                'action': action, 'flags': rpc.CREATE_PARENTS, 'priority': 0}
+
+    case = {'kind': 'collect-and-move', 'place': place, 'dir': cname,
+            'generations': gens, 'per_generation': per, 'mover': str(mover),
+            'steps': list()}
+    for g in range(gens):
+        for k in range(per):
+            uid  = 'task.c%d%d' % (g, k)
+            tsb  = os.path.join(psbox, uid)
+            os.makedirs(tsb, exist_ok=True)
+            data = 'generation %d member %d of %s\n' % (g, k, idx)
+            with open(os.path.join(tsb, 'result.dat'), 'w') as fout:
+                fout.write(data)
+            tgt = '%s:///%s/%s.dat' % (place, cname, uid)
+            plan.append((uid, tsb, [sd(rpc.COPY, 'result.dat', tgt)]))
+            expect[os.path.join(pbase, cname, uid + '.dat')] = data
+            case['steps'].append([uid, 'Copy', tgt])
+        if g < gens - 1:
+            # the generation is archived: the directory moves as a whole
+            uid = 'task.m%d' % g
+            tsb = os.path.join(psbox, uid)
+            os.makedirs(tsb, exist_ok=True)
+            src = '%s:///%s' % (place, cname)
+            tgt = '%s:///archive/gen.%d' % (place, g)
+            if mover == 'rename-by-task':
+                # the task itself renamed it while it ran (no directive)
+                plan.append((uid, tsb, [], (os.path.join(pbase, cname),
+                             os.path.join(pbase, 'archive', 'gen.%d' % g))))
+            else:
+                plan.append((uid, tsb, [sd(rpc.MOVE, src, tgt)]))
+            case['steps'].append([uid, str(mover), src, tgt])
+            for path in list(expect):
+                if path.startswith(os.path.join(pbase, cname) + '/'):
+                    new = os.path.join(pbase, 'archive', 'gen.%d' % g,
+                                       os.path.basename(path))
+                    expect[new] = expect.pop(path)
+
+    def ctx():
+        return {'case': case, 'states': {u: pipe.states[u] for u in
+                                         [p[0] for p in plan]},
+                'errors': dict(pipe.excs)}
+
+    for item in plan:
+        uid, tsb, sds = item[:3]
+        if len(item) > 3:
+            os.makedirs(os.path.dirname(item[3][1]), exist_ok=True)
+            os.rename(*item[3])
+        td = {'type': 'task', 'tmgr': 'tmgr.0000', 'uid': uid, 'name': '',
+              'state': rps.AGENT_STAGING_OUTPUT_PENDING, 'origin': 'client',
+              'exit_code': 0, 'stdout': '', 'stderr': '',
+              'return_value': None, 'exception': None,
+              'exception_detail': None, 'pilot': PID,
+              'endpoint_fs'     : 'file://localhost/',
+              'resource_sandbox': 'file://localhost' + os.path.dirname(
+                                      os.path.dirname(psbox.rstrip('/'))),
+              'session_sandbox' : 'file://localhost' + os.path.dirname(
+                                      psbox.rstrip('/')),
+              'pilot_sandbox'   : 'file://localhost' + psbox.rstrip('/') + '/',
+              'task_sandbox'    : 'file://localhost' + tsb,
+              'task_sandbox_path': tsb,
+              'client_sandbox'  : orc.bases['client'],
+              'info': None, 'slots': None, 'partition': None,
+              'target_state': rps.DONE,
+              'description': {'uid': uid, 'mode': 'task.executable',
+                              'executable': '/bin/true', 'sandbox': '',
+                              'input_staging': list(),
+                              'output_staging': sds,
+                              'stage_on_error': False, 'ranks': 1,
+                              'cores_per_rank': 1}}
+        pipe.step(pipe.aso, rpc.AGENT_STAGING_OUTPUT_QUEUE, [[td]])
+        res.count('collect_move_directives', len(sds))
+        if rps.FAILED in pipe.finals(uid):
+            res.violation('legal-directive-failed/directory-reused',
+                          '%s: %s failed (%s) - the directory %s:///%s had '
+                          'been moved away and is collected into again'
+                          % (uid, [(d['action'], d['target']) for d in sds],
+                             pipe.excs.get(uid), place, cname), ctx())
+            return
+    pipe.take(rpc.AGENT_COLLECTING_QUEUE)
+
+    res.count('collect_move_histories')
+    for path, data in sorted(expect.items()):
+        res.count('collect_move_files_checked')
+        try:
+            with open(path) as fin:
+                got = fin.read()
+        except OSError as e:
+            got = repr(e)
+        if got != data:
+            res.violation('collected-file-not-in-place',
+                          '%s: expected %r, found %r'
+                          % (os.path.relpath(path, root), data, got), ctx())
+            return
+
+
 def run(ctx):
 
     res = Result()
@@ -1519,6 +1661,19 @@ def run(ctx):
     prng = ctx.rng('pilot-staging')
     for i in range(ctx.n(480, 30000)):
         pilot_staging_history(prng, res, ctx.workdir, i)
+        res.evaluations += 1
+        if len(res.violations) > 20:
+            break
+
+    crng = ctx.rng('collect-move')
+    for i in range(ctx.n(320, 20000)):
+        try:
+            collect_and_move_history(crng, res, ctx.workdir, i)
+        except Exception as e:
+            import traceback
+            res.inconc('harness error (collect-and-move): %r' % e)
+            res.note(traceback.format_exc()[-1500:])
+            break
         res.evaluations += 1
         if len(res.violations) > 20:
             break
@@ -1548,6 +1703,15 @@ def run(ctx):
 
 def replay(case, ctx):
     res = Result()
+    if case['case'].get('kind') == 'collect-and-move':
+        # (generated from the shard's stream: re-run the workload)
+        crng = ctx.rng('collect-move')
+        for i in range(200):
+            collect_and_move_history(crng, res, ctx.workdir, i)
+            if res.violations:
+                break
+        res.evaluations = 1
+        return res
     run_case(case['case'], res, ctx.workdir)
     res.evaluations = 1
     return res
